@@ -56,12 +56,12 @@ type hsObs struct {
 type hsLine struct {
 	Events  []cnEvent  `json:"events"`
 	Conform bool       `json:"conform"`
-	Ev     string     `json:"ev"`
-	ID     int        `json:"id"`
-	Script hsScript   `json:"script"`
-	Want   cerContent `json:"want"`
-	Obs    hsObs      `json:"obs"`
-	Note   string     `json:"note"`
+	Ev      string     `json:"ev"`
+	ID      int        `json:"id"`
+	Script  hsScript   `json:"script"`
+	Want    cerContent `json:"want"`
+	Obs     hsObs      `json:"obs"`
+	Note    string     `json:"note"`
 }
 
 func errClass(err error) string {
